@@ -101,21 +101,40 @@ def generate() -> str:
         padname = fn.args.args[2].arg if len(fn.args.args) > 2 else None
         if padname and fn.args.defaults and isinstance(fn.args.defaults[-1], ast.Constant):
             facts["defaultPad"] = f"(some {fn.args.defaults[-1].value})"
-        comb = None
+        # follow the value handed to _get_bbox_nd through the locals: a mask M, and what replaces it when M has no True
+        env = {}
         for st in fn.body:
+            if isinstance(st, ast.Expr) and isinstance(st.value, ast.Constant):
+                continue
             if isinstance(st, ast.Assign) and isinstance(st.targets[0], ast.Name):
-                t = src(st.value)
-                if t in (f"np.logical_or({a0} != 0, {a1} != 0)", f"np.logical_or({a1} != 0, {a0} != 0)", f"({a0} != 0) | ({a1} != 0)", f"({a1} != 0) | ({a0} != 0)"):
-                    comb = st.targets[0].id
-                    facts["union"] = "true"
-            if isinstance(st, ast.If) and comb and src(st.test) in (f"not {comb}.any()", f"not np.any({comb})") and len(st.body) == 1 \
-                    and isinstance(st.body[0], ast.Assign) and src(st.body[0].targets[0]) == comb and src(st.body[0].value) in (f"np.ones_like({comb})",):
-                facts["fallbackWhole"] = "true"
-            if isinstance(st, ast.Return) and comb and isinstance(st.value, ast.Call) and src(st.value.func) == "_get_bbox_nd" and st.value.args \
-                    and src(st.value.args[0]) == comb:
+                env[st.targets[0].id] = subst(st.value, env)
+                continue
+            if isinstance(st, ast.If) and len(st.body) == 1 and not st.orelse and isinstance(st.body[0], ast.Assign) and isinstance(st.body[0].targets[0], ast.Name):
+                nm = st.body[0].targets[0].id
+                old = env.get(nm, ast.Name(id=nm, ctx=ast.Load()))
+                env[nm] = ast.IfExp(test=subst(st.test, env), body=subst(st.body[0].value, env), orelse=old)
+                continue
+            if isinstance(st, ast.Return) and isinstance(st.value, ast.Call) and src(st.value.func) == "_get_bbox_nd" and st.value.args:
+                e = subst(st.value.args[0], env)
                 kws = {k.arg: src(k.value) for k in st.value.keywords}
                 pos = [src(x) for x in st.value.args[1:]]
                 facts["padPassed"] = "true" if padname and (kws.get("px_dist") == padname or pos == [padname]) else "false"
+                unions = (f"np.logical_or({a0} != 0, {a1} != 0)", f"np.logical_or({a1} != 0, {a0} != 0)", f"({a0} != 0) | ({a1} != 0)", f"({a1} != 0) | ({a0} != 0)",
+                          f"{a0} != 0 | {a1} != 0")
+                mask, fallback = e, None
+                if isinstance(e, ast.IfExp):
+                    t = e.test
+                    neg = False
+                    while isinstance(t, ast.UnaryOp) and isinstance(t.op, ast.Not):
+                        neg, t = not neg, t.operand
+                    yes, no = (e.orelse, e.body) if neg else (e.body, e.orelse)       # yes: taken when the test (".any()") holds
+                    m_any = re.fullmatch(r"(.+)\.any\(\)|np\.any\((.+)\)", src(t))
+                    if m_any and src(yes) == (m_any.group(1) or m_any.group(2)):
+                        mask, fallback = yes, no
+                if src(mask) in unions:
+                    facts["union"] = "true"
+                if fallback is not None and src(fallback) in (f"np.ones_like({src(mask)})", f"np.ones({src(mask)}.shape, dtype=bool)"):
+                    facts["fallbackWhole"] = "true"
     out = ["/- GENERATED by harness/extract/bbox_code.py from /repo's working tree — do not edit. -/",
            "import Panoptica.Model.Codes", "namespace Panoptica.Generated.Bbox", "open Panoptica.Codes", "",
            "/-- start and stop of the slice of one axis, over lo / hi (first / last non-zero index), pad, n (axis length) -/",
